@@ -26,4 +26,5 @@ PROPS = {
     "C02": hist("^TestC02", "swap/conversion-weighted histories with boundary amounts; oracle: every exported amount >= 0, volume <= max supply, pool reserves > 0 after every Commit; non-trivial = accepted txs plus an insufficiency rejection or an exact-boundary value; distinct by step-list hash"),
     "C07": hist("^TestC07", "hostile histories: all tx types with semantic and byte-level perturbations, garbage bytes, replays, arbitrary vote sets, evidence against validators/candidates/unknown addresses, time jumps; oracle: no ABCI call panics and an empty block still commits afterwards; non-trivial = some input reached Run or a block had absences/evidence; distinct by step-list hash", qchecks=350),
     "C09": hist("^TestC09", "twin histories: node R restarted (1-3 times in a row) at drawn block boundaries vs node N never restarted, same ABCI requests; oracle: every response digest equal, and after every Commit info/app hash, export JSON, emission, versions, validators and events of the height equal; non-trivial = at least one restart followed by a block with an accepted tx; distinct by step-list hash", qchecks=220, tchecks=1500),
+    "C08": hist("^TestC08", "(a) two instances in one process fed the same generated requests (multi-entity blocks of up to 12 txs); (b) every 8th generated scenario is recorded as data and replayed by three child processes with GOMAXPROCS/GOGC = 1/10, 4/100, 16/off; oracle: response digests, validator updates, app hashes and query results identical; non-trivial = a block with >= 2 accepted transactions; distinct by step-list hash", qchecks=200, tchecks=1500),
 }
